@@ -78,7 +78,14 @@ type Term struct {
 	Int   *big.Int
 	Bound []*Term   // forall/exists: bound variables
 	Pats  [][]*Term // forall/exists: patterns
-	str   string
+	// Distinct != 0: a constant known to differ from every other constant of the same class
+	// (1: string literals with different contents, 2: objects allocated during the execution)
+	Distinct int
+	str      string
+}
+
+func knownDistinct(a, b *Term) bool {
+	return a.Op == "const" && b.Op == "const" && a.Distinct != 0 && a.Distinct == b.Distinct && a.Name != b.Name
 }
 
 var (
@@ -166,8 +173,8 @@ func (c *Ctx) App(name string, res *Sort, args ...*Term) *Term {
 	return &Term{Op: "app", Name: name, Args: args, Sort: res}
 }
 
-func IntLit(n int64) *Term      { return &Term{Op: "int", Int: big.NewInt(n), Sort: IntSort} }
-func BigLit(n *big.Int) *Term   { return &Term{Op: "int", Int: new(big.Int).Set(n), Sort: IntSort} }
+func IntLit(n int64) *Term    { return &Term{Op: "int", Int: big.NewInt(n), Sort: IntSort} }
+func BigLit(n *big.Int) *Term { return &Term{Op: "int", Int: new(big.Int).Set(n), Sort: IntSort} }
 func BoolLit(b bool) *Term {
 	if b {
 		return True
@@ -399,7 +406,7 @@ func Select(arr, idx *Term) *Term {
 		if arr.Args[1] == idx || arr.Args[1].String() == idx.String() {
 			return arr.Args[2]
 		}
-		if arr.Args[1].Op == "int" && idx.Op == "int" {
+		if (arr.Args[1].Op == "int" && idx.Op == "int") || knownDistinct(arr.Args[1], idx) {
 			arr = arr.Args[0]
 			continue
 		}
